@@ -7,23 +7,32 @@
        output K cs = output K cs'
    shown as  output K cs = F_K (concat cs)  for the pure functions F_K of Model/Chunk.v
    (a_strip_bom, a_read_lines, a_replace1, a_decode).
-   Proved below: the source itself, StripBOM, bufio.Reader fill/ReadRune/ReadSlice/ReadLine/Read,
-   ios.ByteReadLine, the line loop, BytesReplacingReader for a one-byte search token and a
-   replacement of length <= 1 (the three instances omniparser constructs), and the compositions
-   StripBOM -> line reader (both fixed-length formats) and StripBOM -> Read -> CR removal -> LF
-   removal (the bytes the EDI scanner sees) -- for every buffer size >= 4, every chunking, every
-   tail (EOF or faults), EOF/fault delivered with or after the last bytes.  Every layer theorem is
-   proved over ANY reader meeting the contract reader_ok, so the layers compose freely.  The
-   line-reader theorems carry the guard that the pure function is defined (a_read_lines ... = Ok _),
-   which excludes exactly the inputs of known finding F22 (lines_chunk_refuted).
-   NOT proved (model + correspondence on every run only; hence ..._partial below): the delimiter
-   scanner with its doubling buffer (scan / scan_all), the charmap decoder (dec_read), and
-   BytesReplacingReader for longer tokens; encoding/csv|json|xml are assumed chunk-invariant. *)
-From Coq Require Import List NArith Bool Arith.
+   Proved below, each layer over ANY reader meeting the contract reader_ok (so the layers compose
+   freely), for every buffer size >= 4, every chunking, every tail (EOF or faults), EOF/fault
+   delivered with or after the last bytes:
+     the source itself; the bytewise charmap decoder (x/text transform.Reader, dec_read);
+     ios.StripBOM; bufio.Reader fill/ReadRune/ReadSlice/ReadLine/Read; ios.ByteReadLine and the line
+     loop; BytesReplacingReader for a one-byte search token and a replacement of length <= 1 (the
+     three instances omniparser constructs); bufio.Scanner with the go-corelib split function
+     (shift, doubling buffer, MaxScanTokenSize) for bytes.Index and for strs.ByteIndexWithEsc with
+     a release character;
+   and the complete stacks  WrapEncoding -> StripBOM -> line reader  (both fixed-length formats)
+   and  WrapEncoding -> StripBOM -> Read -> [CR removal -> LF removal] -> delimiter scanner  (EDI),
+   for utf-8 (no decoder) and for any charmap (decoder): stack_lines_chunk_invariant,
+   stack_chunk_invariant_edi, stack_chunk_invariant_enc_lines, stack_chunk_invariant_enc_edi.
+   Guards: the pure function is defined (= Ok _), which excludes exactly (a) known finding F22
+   (line reader, lines_chunk_refuted) and (b) its scanner analogue, known finding F23: exactly
+   MaxScanTokenSize (65536) bytes without a delimiter at the very end of the input
+   (scan_chunk_refuted; replayed from replays/corpus/C09/F23-tail65536.json).
+   BytesReplacingReader is also proved in general (any non-empty search token, any replacement:
+   brrg_reader_ok, a_replace = leftmost non-overlapping replacement); the one-byte instances are
+   its corollaries.  encoding/csv|json|xml are assumed chunk-invariant. *)
+From Coq Require Import List NArith Bool Arith Lia.
 From Coq.Strings Require Import Byte.
 Import ListNotations.
 From OV Require Import Base.Bytes Model.Chunk Proofs.Chunk Proofs.ChunkLines Proofs.ChunkBom Proofs.ChunkTop
-  Proofs.ChunkBRR Proofs.ChunkBufRead Proofs.ChunkStack Proofs.ChunkAlias.
+  Proofs.ChunkBRR Proofs.ChunkBufRead Proofs.ChunkStack Proofs.ChunkAlias Proofs.ChunkDecode
+  Proofs.ChunkScan Proofs.ChunkFind Proofs.ChunkBRRGen.
 
 (* A consumer that reads a source to the end with reads of any fixed positive size sees the same
    bytes and the same final error under every chunking of the same bytes. *)
@@ -98,6 +107,37 @@ Theorem brr_chunk_invariant : forall s repl cap fuel fuel' F F' cs cs' wl wl' t,
   drain_rd _ (brr_rd s repl 4096 source io_read fuel') F' cap (brr_init, mkSrc cs' wl' t).
 Proof. exact brr_chunk_invariant. Qed.
 
+(* BytesReplacingReader in general: any non-empty search token, any replacement (shorter, equal,
+   longer; buffer >= both), over any reader meeting the contract: meets the contract for the stream
+   a_replace search repl 0 data (every leftmost non-overlapping occurrence replaced). *)
+Theorem brrg_reader_ok : forall search repl, 1 <= length search ->
+  forall bufsize, length search <= bufsize /\ length repl <= bufsize /\ 0 < bufsize ->
+  forall St sread Rep wt lead, reader_ok St sread Rep wt lead -> forall fuel,
+  reader_ok (brr * St) (brrg_rd search repl bufsize St sread fuel)
+            (brrg_rep_f search repl bufsize St Rep wt fuel) (brrg_wt search repl St wt) (fun _ => 0).
+Proof. exact brrg_reader_ok. Qed.
+
+Theorem brrg_chunk_invariant : forall search repl bufsize cap fuel fuel' F F' cs cs' wl wl' t,
+  1 <= length search -> length search <= bufsize -> length repl <= bufsize ->
+  0 < cap -> concat cs = concat cs' -> runs_ok cs = true -> runs_ok cs' = true ->
+  weight cs + 1 < fuel -> weight cs' + 1 < fuel' ->
+  2 * mm search repl * weight cs < F -> 2 * mm search repl * weight cs' < F' ->
+  drain_rd _ (brrg_rd search repl bufsize source io_read fuel) F cap (brr_init, mkSrc cs wl t) =
+  drain_rd _ (brrg_rd search repl bufsize source io_read fuel') F' cap (brr_init, mkSrc cs' wl' t).
+Proof. exact brrg_chunk_invariant. Qed.
+
+Theorem a_replace_single : forall s repl l, a_replace [s] repl 0 l = a_replace1 s repl l.
+Proof. exact a_replace_single. Qed.
+
+(* Non-vacuity: "ab" -> "xyz" (longer) on "aabab" + "b", cut inside both occurrences. *)
+Example brrg_nonvacuous :
+  let cs := [[x61; x61]; [x62; x61]; []; [x62]; [x62]] in
+  runs_ok cs = true /\
+  drain_rd _ (brrg_rd [x61; x62] [x78; x79; x7a] 8 source io_read 40) 80 3 (brr_init, mkSrc cs true TEof)
+  = Ok (a_replace [x61; x62] [x78; x79; x7a] 0 (concat cs), IoEOF) /\
+  a_replace [x61; x62] [x78; x79; x7a] 0 (concat cs) = [x61; x78; x79; x7a; x78; x79; x7a; x62].
+Proof. vm_compute. repeat split; reflexivity. Qed.
+
 (* Composition for the EDI byte stack: what StripBOM -> Read -> CR removal -> LF removal hands
    to its consumer is a_replace1 LF (a_replace1 CR (a_strip_bom bytes)), under every chunking.
    Partial w.r.t. the full stack statement: the scanner above it and the charmap decoder below it
@@ -122,6 +162,101 @@ Theorem stack_replacing_spec : forall N fuel F cap cs wl t data' t',
     drain_rd _ (edi_bytes_rd N fuel) F cap (brr_init, (brr_init, (b, s')))
     = Ok (a_replace1 NL [] (a_replace1 CR [] data'), tail_err t').
 Proof. exact stack_replacing_spec. Qed.
+
+(* The charmap decoder over any reader meeting the contract meets the contract, for the stream of
+   decoded bytes a_decode cp (any code page with 1..3 output bytes per input byte). *)
+Theorem dec_reader_ok : forall cp, (forall c, 1 <= length (cp c) <= 3) -> forall D, 3 <= D ->
+  forall St sread Rep wt lead, reader_ok St sread Rep wt lead -> forall fuel,
+  reader_ok (decrd * St) (dec_rd cp D St sread fuel) (dec_rep_f cp D St Rep wt fuel) (dec_wt St wt) (fun _ => 0).
+Proof. exact dec_reader_ok. Qed.
+
+Theorem dec_chunk_invariant : forall cp cap fuel fuel' F F' cs cs' wl wl' t,
+  (forall c, 1 <= length (cp c) <= 3) -> 0 < cap -> concat cs = concat cs' ->
+  runs_ok cs = true -> runs_ok cs' = true ->
+  2 * weight cs + 4 < fuel -> 2 * weight cs' + 4 < fuel' -> 6 * weight cs < F -> 6 * weight cs' < F' ->
+  drain_rd _ (dec_rd cp 4096 source io_read fuel) F cap (dec_init, mkSrc cs wl t) =
+  drain_rd _ (dec_rd cp 4096 source io_read fuel') F' cap (dec_init, mkSrc cs' wl' t).
+Proof. exact dec_chunk_invariant. Qed.
+
+(* bufio.Scanner (scan / scan_all of Model/Chunk.v: split function, shift, doubling buffer,
+   ErrTooLong) over any reader meeting the contract: the tokens are a_scan_all of the stream, for
+   any delimiter search that is prefix-stable ... *)
+Theorem scan_all_spec : forall St sread Rep wt lead, reader_ok St sread Rep wt lead ->
+  forall find dlen incl eofd, 1 <= dlen ->
+  (forall d i, find d = Some i -> i + dlen <= length d) ->
+  (forall d r i, find d = Some i -> find (d ++ r) = Some i) ->
+  forall gas fuel sc x data t res,
+  SR St Rep (sc, x) data t -> sm St wt (sc, x) < gas ->
+  a_scan_all find dlen incl eofd fuel data t = Ok res ->
+  scan_all St sread find dlen incl eofd gas fuel sc x = Ok res.
+Proof. exact scan_all_spec. Qed.
+
+(* Without the guard the scanner statement is false (known finding F23). *)
+Theorem scan_chunk_refuted :
+  exists cs cs' wl wl' gas fuel,
+    concat cs = concat cs' /\ runs_ok cs = true /\ runs_ok cs' = true /\
+    scan_all source io_read (byte_index_with_esc [x7e] []) 1 true false gas fuel (mkScan 0 [] 128 None) (mkSrc cs wl TEof) <>
+    scan_all source io_read (byte_index_with_esc [x7e] []) 1 true false gas fuel (mkScan 0 [] 128 None) (mkSrc cs' wl' TEof).
+Proof. exact scan_chunk_refuted. Qed.
+
+(* ... which bytes.Index and strs.ByteIndexWithEsc (any release character sequence) are, for every
+   delimiter that starts with a complete UTF-8 sequence. *)
+Theorem find_esc_ok : forall delim esc, full_rune delim = true ->
+  (forall d i, byte_index_with_esc delim esc d = Some i -> i + length delim <= length d) /\
+  (forall d r i, byte_index_with_esc delim esc d = Some i -> byte_index_with_esc delim esc (d ++ r) = Some i).
+Proof. exact find_esc_ok. Qed.
+
+(* The complete EDI stack, utf-8: StripBOM -> Read -> [CR, LF removal] -> scanner. *)
+Theorem stack_chunk_invariant_edi : forall crlf N buflen delim esc gasB gas fuel cs cs' wl wl' t res,
+  4 <= N -> buflen <= MaxScanTokenSize -> full_rune delim = true ->
+  concat cs = concat cs' -> runs_ok cs = true -> runs_ok cs' = true ->
+  12 * (N + weight cs) + 6 < gasB -> 12 * (N + weight cs) + 6 < gas ->
+  12 * (N + weight cs') + 6 < gasB -> 12 * (N + weight cs') + 6 < gas ->
+  a_edi_tokens crlf delim esc fuel (concat cs, t) = Ok res ->
+  edi_tokens_rd source io_read crlf N buflen delim esc gasB gas fuel (mkSrc cs wl t) = Ok res /\
+  edi_tokens_rd source io_read crlf N buflen delim esc gasB gas fuel (mkSrc cs' wl' t) = Ok res.
+Proof. exact stack_chunk_invariant_edi. Qed.
+
+(* The complete stacks with a charmap decoder in front (WrapEncoding for iso-8859-1 and
+   windows-1252). *)
+Theorem stack_chunk_invariant_enc_lines : forall cp fuelD N gas fuel cs cs' wl wl' t res,
+  (forall c, 1 <= length (cp c) <= 3) ->
+  4 <= N -> concat cs = concat cs' -> runs_ok cs = true -> runs_ok cs' = true ->
+  2 * weight cs + 4 < fuelD -> 2 * weight cs' + 4 < fuelD ->
+  6 * weight cs + 1 < gas -> 6 * weight cs' + 1 < gas ->
+  a_bom_lines N fuel (a_decode cp (concat cs), latch t) = Ok res ->
+  bom_lines_rd _ (dec_rd cp 4096 source io_read fuelD) N gas fuel (dec_init, mkSrc cs wl t) = Ok res /\
+  bom_lines_rd _ (dec_rd cp 4096 source io_read fuelD) N gas fuel (dec_init, mkSrc cs' wl' t) = Ok res.
+Proof. intros. eapply stack_chunk_invariant_enc_lines; eassumption. Qed.
+
+Theorem stack_chunk_invariant_enc_edi : forall cp fuelD crlf N buflen delim esc gasB gas fuel cs cs' wl wl' t res,
+  (forall c, 1 <= length (cp c) <= 3) ->
+  4 <= N -> buflen <= MaxScanTokenSize -> full_rune delim = true ->
+  concat cs = concat cs' -> runs_ok cs = true -> runs_ok cs' = true ->
+  2 * weight cs + 4 < fuelD -> 2 * weight cs' + 4 < fuelD ->
+  12 * (N + 6 * weight cs) + 6 < gasB -> 12 * (N + 6 * weight cs) + 6 < gas ->
+  12 * (N + 6 * weight cs') + 6 < gasB -> 12 * (N + 6 * weight cs') + 6 < gas ->
+  a_edi_tokens crlf delim esc fuel (a_decode cp (concat cs), latch t) = Ok res ->
+  edi_tokens_rd _ (dec_rd cp 4096 source io_read fuelD) crlf N buflen delim esc gasB gas fuel (dec_init, mkSrc cs wl t) = Ok res /\
+  edi_tokens_rd _ (dec_rd cp 4096 source io_read fuelD) crlf N buflen delim esc gasB gas fuel (dec_init, mkSrc cs' wl' t) = Ok res.
+Proof. intros. eapply stack_chunk_invariant_enc_edi; eassumption. Qed.
+
+(* Non-vacuity of the complete-stack theorems: a two-byte code page, BOM (as decoded), CR LF,
+   a release character before a delimiter, cuts inside all of them, a 4-byte scanner buffer. *)
+Definition demo_cp (c : byte) : bytes := if (b2n c <? 128)%N then [c] else [xc3; c].
+Example c09_full_stack_nonvacuous :
+  let data := [x41; x2a; xe9; x3f; x7e; x62; x7e; x0d; x0a; x42; x2a; x32; x7e; x0d] in
+  let cs := [[x41]; []; [x2a; xe9; x3f]; [x7e; x62; x7e; x0d]; [x0a; x42]; [x2a; x32; x7e; x0d]] in
+  concat cs = data /\ runs_ok cs = true /\ (forall c, 1 <= length (demo_cp c) <= 3) /\
+  a_edi_tokens true [x7e] [x3f] 20 (a_decode demo_cp data, latch TEof)
+    = Ok (inr ([[x41; x2a; xc3; xe9; x3f; x7e; x62; x7e]; [x42; x2a; x32; x7e]], None)) /\
+  edi_tokens_rd _ (dec_rd demo_cp 4096 source io_read 200) true 16 4 [x7e] [x3f] 3000 3000 20 (dec_init, mkSrc cs true TEof)
+    = edi_tokens_rd _ (dec_rd demo_cp 4096 source io_read 200) true 16 4 [x7e] [x3f] 3000 3000 20 (dec_init, mkSrc [data] false TEof).
+Proof.
+  split; [reflexivity|]. split; [reflexivity|]. split.
+  - intro c. unfold demo_cp. destruct (b2n c <? 128)%N; simpl; lia.
+  - split; vm_compute; reflexivity.
+Qed.
 
 (* The aliasing discipline of the fixedlength2 unprocessed-lines buffer (flatfile/fixedlength/
    reader.go readLine: "copy the last line before the next read"): for ANY number of buffered
